@@ -26,7 +26,8 @@ Inductive fact :=
 | FAv (x : ptr) (w : uword)
 | FCl (x : ptr) (w : uword) (d : bool) (c : ptr)
 | FFz (x : ptr) (d : bool) (c : ptr)
-| FRc (c : ptr).
+| FRc (c : ptr)
+| FDead.
 
 Record hold := mkH { hx : ptr; hop : ptr; hb : nat; hn : option nat; hmk : option ptr; hch : list (bool * ptr) }.
 Record core := mkC {
@@ -53,6 +54,7 @@ Definition fact_ok (g : G) (a : daux) (f : fact) : Prop :=
   | FCl x w d c => dpub a x = true /\ (snd w = 0%nat -> (fst w <= dmax a x)%nat /\ (upd g x = w -> child g x d = c))
   | FFz x d c => dpub a x = true /\ snd (upd g x) = 3%nat /\ child g x d = c
   | FRc c => dpub a c = true /\ (~ internal g c -> inf_of (flags g c) <> 0)
+  | FDead => False
   end.
 
 Definition hold_ok (g : G) (a : daux) (t : nat) (h : hold) : Prop :=
@@ -119,7 +121,7 @@ Proof. intros E. unfold internal. now rewrite E. Qed.
 
 Lemma fact_stable t g a g' a' f : stepR t g a g' a' -> fact_ok g a f -> fact_ok g' a' f.
 Proof.
-  intros R. destruct f as [k n|n f key|x w|x w d c|x d c|c]; cbn [fact_ok].
+  intros R. destruct f as [k n|n f key|x w|x w d c|x d c|c|]; cbn [fact_ok]; [| | | | | |exact (fun H => H)].
   - apply (r_ev _ _ _ _ _ R).
   - intros (A & B & C). destruct (r_fl _ _ _ _ _ R n (or_introl A)) as [E1 E2]. rewrite E1, E2. split; [now apply (r_pub _ _ _ _ _ R)|auto].
   - intros (A & B). split; [now apply (r_pub _ _ _ _ _ R)|]. intros H. pose proof (r_max _ _ _ _ _ R x). specialize (B H). lia.
@@ -276,8 +278,12 @@ Record IL (keys : list nat) (g : G) (a : daux) (tr : list (nat * ev)) : Prop := 
 }.
 
 Definition exhausted (tr : list (nat * ev)) : Prop := exists t, In (t, EvCli "outoffuel"%string []) tr.
-Definition DInv (keys : list nat) (g : G) (a : daux) (tr : list (nat * ev)) : Prop :=
+Definition DInvA (keys : list nat) (g : G) (a : daux) (tr : list (nat * ev)) : Prop :=
   DS g a /\ (IL keys g a tr \/ exhausted tr).
+(** once a thread has run out of the model's loop fuel (the real code has no such bound) nothing is claimed *)
+Definition DInv (keys : list nat) (g : G) (a : daux) (tr : list (nat * ev)) : Prop :=
+  exhausted tr \/ DInvA keys g a tr.
+Definition deadv : dview := mkDV [FDead] (mkC None None [] 0 (@Idle SetSpec)).
 
 Section Safe.
 Variable keys : list nat.
@@ -292,16 +298,28 @@ Proof. unfold upd_hist. rewrite fold_left_app. reflexivity. Qed.
 Lemma exhausted_app tr tr' : exhausted tr -> exhausted (tr ++ tr').
 Proof. intros (t & H). exists t. apply in_or_app. now left. Qed.
 
+Lemma alive g a t : DS g a -> view a t <> deadv.
+Proof. intros Hs E. destruct (d_views _ _ Hs t) as (H & _). rewrite E in H. inversion H as [|? ? X]. exact X. Qed.
+
+Lemma safe_dead {R} t (p : prog R) : DSAFE t p deadv.
+Proof.
+  unfold DSAFE. induction p as [r|es k IH|f k IH]; cbn [Conc.safe]; [exact Logic.I| |].
+  - intros g a tr [Hex|[Hs _]] Hv; [|exfalso; eapply alive; eauto]. exists a. split; [left; now apply exhausted_app|]. split; [intros u _; reflexivity|]. rewrite Hv. exact IH.
+  - intros g a tr [Hex|[Hs _]] Hv; [|exfalso; eapply alive; eauto]. exists a. split; [left; now apply exhausted_app|]. split; [intros u _; reflexivity|]. rewrite Hv. apply IH.
+Qed.
+
 Lemma D_act {R} t f (k : V -> prog R) lv :
-  (forall g a tr, DInv keys g a tr -> view a t = lv ->
+  (forall g a tr, DInvA keys g a tr -> view a t = lv ->
      exists pub' ev' dead' max' lv' atr',
-       DInv keys (fst (fst (f g))) (mk_a a t pub' ev' dead' max' lv' atr') (tr ++ Conc.tag t (snd (f g))) /\
+       DInvA keys (fst (fst (f g))) (mk_a a t pub' ev' dead' max' lv' atr') (tr ++ Conc.tag t (snd (f g))) /\
        DSAFE t (k (snd (fst (f g)))) lv') ->
   DSAFE t (Act f k) lv.
 Proof.
-  intros H. unfold DSAFE. cbn [Conc.safe]. intros g a tr Hi Hv.
-  destruct (H g a tr Hi Hv) as (pub' & ev' & dead' & max' & lv' & atr' & H1 & H2).
-  exists (mk_a a t pub' ev' dead' max' lv' atr'). split; [exact H1|]. split; [apply frame_mk|]. now rewrite view_mk_same.
+  intros H. unfold DSAFE. cbn [Conc.safe]. intros g a tr [Hex|Hi] Hv.
+  - exists (mk_a a t (dpub a) (dever a) (ddead a) (dmax a) deadv (datr a)). split; [left; now apply exhausted_app|]. split; [apply frame_mk|].
+    rewrite view_mk_same. apply safe_dead.
+  - destruct (H g a tr Hi Hv) as (pub' & ev' & dead' & max' & lv' & atr' & H1 & H2).
+    exists (mk_a a t pub' ev' dead' max' lv' atr'). split; [right; exact H1|]. split; [apply frame_mk|]. now rewrite view_mk_same.
 Qed.
 
 Definition one_acc (f : G -> G * V * list ev) : Prop := forall g, exists kd ob ok, snd (f g) = [EvAcc kd ob ok].
@@ -334,7 +352,7 @@ Proof.
 Qed.
 
 Lemma inv_step g g' a a' tr es :
-  DS g' a' -> (IL keys g a tr -> IL keys g' a' (tr ++ es)) -> (IL keys g a tr \/ exhausted tr) -> DInv keys g' a' (tr ++ es).
+  DS g' a' -> (IL keys g a tr -> IL keys g' a' (tr ++ es)) -> (IL keys g a tr \/ exhausted tr) -> DInvA keys g' a' (tr ++ es).
 Proof. intros H1 H2 [H|H]; split; auto. right. now apply exhausted_app. Qed.
 
 Lemma abs_same_on g g' S : same_on g g' (insub g root) -> abs g S -> abs g' S.
